@@ -342,7 +342,8 @@ def enumMarkerMethod (enumName : Name) : Name := ['i', 's'] ++ goIdent enumName
 /-- `array_helper_fn_name` / `ref_helper_fn_name` (same body) -/
 def helperFnName (pfx : Name) (t : Ty) : Name := pfx ++ ['_', '_'] ++ goIdent (encodeTy t)
 
-def endsWith (n suffix : Name) : Bool := suffix.length ≤ n.length && n.drop (n.length - suffix.length) == suffix
+/-- `str::ends_with` -/
+def endsWith (n suffix : Name) : Bool := suffix.reverse.isPrefixOf n.reverse
 
 /-- the name `compile_fn` gives a top-level function -/
 def compileFnName (name : Name) : Name :=
@@ -365,5 +366,157 @@ def gensymPrefixNames : List Name := gensymPrefixes
 def goLocal (hint : Name) (idx : Nat) : Name := goIdent (renameLocal (localName hint idx))
 /-- the Go identifier of a compiler temporary -/
 def goTemp (pfx : Name) (n : Nat) : Name := goIdent (gensymName pfx n)
+
+/-! ### method dispatch: the naming sites of a trait / inherent method (C17) -/
+
+def lookupSubst (σ : List (Name × Ty)) (k : Name) : Option Ty :=
+  match σ with
+  | [] => none
+  | (k', v) :: rest => if k' == k then some v else lookupSubst rest k
+
+mutual
+/-- `mono::subst_ty` -/
+def substTy (σ : List (Name × Ty)) : Ty → Ty
+  | .tparam n => (lookupSubst σ n).getD (.tparam n)
+  | .ttuple ts => .ttuple (substTys σ ts)
+  | .tapp t args => .tapp (substTy σ t) (substTys σ args)
+  | .tarray len e => .tarray len (substTy σ e)
+  | .tvec e => .tvec (substTy σ e)
+  | .tref e => .tref (substTy σ e)
+  | .tfunc ps r => .tfunc (substTys σ ps) (substTy σ r)
+  | t => t
+def substTys (σ : List (Name × Ty)) : List Ty → List Ty
+  | [] => []
+  | t :: ts => substTy σ t :: substTys σ ts
+end
+
+mutual
+/-- `mono::has_tparam` / `compile_match::has_tparam` -/
+def hasTParam : Ty → Bool
+  | .tparam _ => true
+  | .ttuple ts => hasTParams ts
+  | .tapp t args => hasTParam t || hasTParams args
+  | .tarray _ e => hasTParam e
+  | .tvec e => hasTParam e
+  | .tref e => hasTParam e
+  | .tfunc ps r => hasTParams ps || hasTParam r
+  | _ => false
+def hasTParams : List Ty → Bool
+  | [] => false
+  | t :: ts => hasTParam t || hasTParams ts
+end
+
+mutual
+/-- `TypeMono::collapse_type_apps` (phase 2 of mono): applications of generic enums/structs become
+the instance's own nominal type.  `en`/`st` say which constructor names are generic enums/structs.
+`Vec`, `dyn`, primitives, parameters are returned unchanged (the Rust does not descend into `Vec`). -/
+def collapseTy (en st : Name → Bool) : Ty → Ty
+  | .tapp base args =>
+    match args with
+    | [] => .tapp (collapseTy en st base) []
+    | _ =>
+      let bn := (constrName base).getD panicMark
+      if en bn then .tenum (monoTypeName bn args)
+      else if st bn then .tstruct (monoTypeName bn args)
+      else .tapp (collapseTy en st base) (collapseTys en st args)
+  | .ttuple ts => .ttuple (collapseTys en st ts)
+  | .tfunc ps r => .tfunc (collapseTys en st ps) (collapseTy en st r)
+  | .tarray len e => .tarray len (collapseTy en st e)
+  | .tref e => .tref (collapseTy en st e)
+  | t => t
+def collapseTys (en st : Name → Bool) : List Ty → List Ty
+  | [] => []
+  | t :: ts => collapseTy en st t :: collapseTys en st ts
+end
+
+mutual
+/-- no type application anywhere (what every non-generic receiver type satisfies) -/
+def appFree : Ty → Bool
+  | .tapp _ _ => false
+  | .ttuple ts => appFrees ts
+  | .tarray _ e => appFree e
+  | .tvec e => appFree e
+  | .tref e => appFree e
+  | .tfunc ps r => appFrees ps && appFree r
+  | _ => true
+def appFrees : List Ty → Bool
+  | [] => true
+  | t :: ts => appFree t && appFrees ts
+end
+
+/-- site 0, `compile_match::compile_file`: the Core function an `impl Tr for T { fn m }` becomes -/
+def implDefName (tr : Name) (forTy : Ty) (m : Name) : Name := traitImplFnName tr forTy m
+
+/-- what `compile_match.rs:1617-1642` emits for `Tr::m(recv, …)` -/
+inductive CallTarget where
+  | direct (fn : Name)
+  | traitCall (tr m : Name)
+  deriving Repr
+
+/-- site 1 (static): a receiver type without type parameters is named on the spot -/
+def coreCallTarget (tr : Name) (recvTy : Ty) (m : Name) : CallTarget :=
+  if hasTParam recvTy then .traitCall tr m else .direct (traitImplFnName tr recvTy m)
+
+/-- site 2 (bounded generic), `mono.rs:775-808`: an `ETraitCall` is named after the receiver type
+under the instance's substitution; a direct call keeps its name -/
+def monoCallee (σ : List (Name × Ty)) (tr : Name) (recvTy : Ty) (m : Name) : Name :=
+  match coreCallTarget tr recvTy m with
+  | .direct f => f
+  | .traitCall tr' m' => traitImplFnName tr' (substTy σ recvTy) m'
+
+/-- site 3 (dyn), `go/compile.rs:909-916`: the wrapper stored in the vtable calls
+`go_ident(trait_impl_fn_name(Tr, for_ty, m))`, where `for_ty` is the `EToDyn` type *after* phase 2
+of mono (`collapseTy`) -/
+def dynWrapperCallee (en st : Name → Bool) (tr : Name) (forTy : Ty) (m : Name) : Name :=
+  goIdent (traitImplFnName tr (collapseTy en st forTy) m)
+
+/-- `names::parse_inherent_method_fn_name` -/
+def parseInherent (name : Name) : Option (Name × Name) :=
+  match splitOn '#' name with
+  | [tag, base, _ty, m] => if tag == ['i', 'n', 'h', 'e', 'r', 'e', 'n', 't'] then some (base, m) else none
+  | _ => none
+
+mutual
+/-- `typer::check::is_concrete_dyn_target` -/
+def isConcreteDynTarget : Ty → Bool
+  | .tvar _ => false
+  | .tparam _ => false
+  | .ttuple ts => isConcreteDynTargets ts
+  | .tapp t args => isConcreteDynTarget t && isConcreteDynTargets args
+  | .tarray _ e => isConcreteDynTarget e
+  | .tvec e => isConcreteDynTarget e
+  | .tref e => isConcreteDynTarget e
+  | .tfunc ps r => isConcreteDynTargets ps && isConcreteDynTarget r
+  | _ => true
+def isConcreteDynTargets : List Ty → Bool
+  | [] => true
+  | t :: ts => isConcreteDynTarget t && isConcreteDynTargets ts
+end
+
+/-- outcome of `Typer::coerce_to_expected_dyn` -/
+inductive Coerce where
+  | unchanged
+  | unknownTrait
+  | notConcrete
+  | noImpl
+  | toDyn (tr : Name) (forTy : Ty)
+  deriving Repr
+
+/-- decision structure of `coerce_to_expected_dyn` (typer/check.rs:430-496): `resolve` is
+`resolve_trait_name`, `concrete` is `is_concrete_dyn_target`, `visible` is `has_visible_trait_impl` -/
+def coerceToExpectedDyn (resolve : Name → Option Name) (concrete : Ty → Bool) (visible : Name → Ty → Bool)
+    (exprTy expected : Ty) : Coerce :=
+  match expected with
+  | .tdyn tr =>
+    match exprTy with
+    | .tdyn _ => .unchanged
+    | _ =>
+      match resolve tr with
+      | none => .unknownTrait
+      | some r => if !concrete exprTy then .notConcrete else if !visible r exprTy then .noImpl else .toDyn r exprTy
+  | _ => .unchanged
+
+/-- `has_visible_trait_impl`: the key is looked up in the current package and in every dependency -/
+def hasVisibleTraitImpl {K} (hasKey : K → Bool) (current : K) (deps : List K) : Bool := hasKey current || deps.any hasKey
 
 end Goml.Mangle
